@@ -33,8 +33,9 @@ CLAIMED = {
              "through the copy every 32nd operation, ASan+UBSan.",
         note="trusted: Lean kernel; translator/harr_layout.py; the hand transcription of qhasharr.c (validated on explored "
              "histories only); 'no process addresses / nothing written outside the region / a byte copy behaves identically' "
-             "is true by type in the value-semantic model and sampled on the C side by the harness; remove_by_idx requires "
-             "idx < maxslots (not checked by the code).",
+             "is true by type in the value-semantic model and sampled on the C side by the harness (guard zones filled with a "
+             "byte pattern or with fake slot images, exactly sized heap regions under ASan); remove_by_idx is total in the "
+             "index after fix 1eb7244 (EINVAL outside the table), the theorems carry no index hypothesis.",
         technique="Lean 4 proof (local slot invariants + ghost ranks, preservation lemma per image transformation, induction "
                   "over operation lists) + K-gen layout + differential correspondence with an independent Python "
                   "well-formedness checker",
